@@ -71,7 +71,9 @@ Encode(p) ==
     [] OTHER -> KA
 
 ----------------------------------------------------------------------------
-(* writer domain                                                            *)
+(* writer domain.  TLC evaluates every zero-arity constant definition at    *)
+(* start-up whether it is used or not, so the large sets take a (dummy)     *)
+(* parameter: only the set of the selected Mode/Tier is ever built.         *)
 A1     == <<0, 0, 0, 1>>
 A65534 == <<0, 0, 255, 254>>
 A65535 == <<0, 0, 255, 255>>
@@ -104,13 +106,13 @@ Upd(plen, addr, ipform, asn, ibgp, fbasn, nh, lp, nc) ==
    fbasn |-> fbasn, nh |-> nh, lp |-> lp, comms |-> Comms(nc)]
 Pfx(plen, addr, ipform) == [plen |-> plen, addr |-> addr, ipform |-> ipform]
 
-UpdatesFull ==
+UpdatesFull(tier_) ==
   {Upd(pl, ad, f, a, ib, fb, nh, lp, nc) :
      pl \in 0..32, ad \in Addrs, f \in {4, 16}, a \in ASNs, ib \in BOOLEAN, fb \in BOOLEAN,
      nh \in NextHops, lp \in LocalPrefs \ {<<0, 0, 0, 0>>}, nc \in CommCounts}
 
 (* quick: a sweep of the prefix encoder and a sweep of the attribute encoder *)
-UpdatesQuick ==
+UpdatesQuick(tier_) ==
   {Upd(pl, ad, f, A42, ib, TRUE, <<10, 20, 30, 40>>, <<0, 0, 0, 100>>, nc) :
      pl \in 0..32, ad \in Addrs, f \in {4, 16}, ib \in BOOLEAN, nc \in {0, 2}}
   \cup
@@ -129,8 +131,8 @@ WdrMulti(lens) ==
 
 Opens == {[kind |-> "open", asn |-> a, hold |-> h, rid |-> r] : a \in ASNs, h \in Holds, r \in RouterIds}
 
-WriterInputs ==
-  (IF Tier = "quick" THEN UpdatesQuick ELSE UpdatesFull \cup UpdatesQuick)
+WriterInputs(tier_) ==
+  (IF Tier = "quick" THEN UpdatesQuick(Tier) ELSE UpdatesFull(Tier) \cup UpdatesQuick(Tier))
   \cup WdrSingles \cup WdrMulti(IF Tier = "quick" THEN EdgeLens ELSE 0..32)
   \cup Opens \cup {[kind |-> "keepalive"]}
 
@@ -142,15 +144,16 @@ MPXc == CapMP(1, 0, 2)          \* IPv4 multicast: neither family of interest
 MPRc == CapMP(1, 7, 1)          \* reserved octet not zero
 RRc  == <<2, 0>>                \* route refresh
 UNKc == <<70, 3, 1, 2, 3>>      \* unassigned capability code
+UNK1c == <<71, 1, 65>>          \* another one, one octet of payload (which looks like a capability code)
 GRc  == <<64, 2, 0, 120>>       \* graceful restart
 FB2c == <<65, 2, 0, 1>>         \* capability 65 with a wrong length
 MP3c == <<1, 3, 0, 1, 1>>       \* capability 1 with a wrong length
 
 CapAlphabet ==
-  IF Tier = "quick" THEN {MP4c, MP6c, CapFB(A65536), CapFB(A42), RRc, UNKc}
-  ELSE {MP4c, MP6c, CapFB(A65536), CapFB(A42), RRc, UNKc, MPXc, MPRc, CapFB(A1), GRc, FB2c, MP3c}
+  IF Tier = "quick" THEN {MP4c, MP6c, CapFB(A65536), CapFB(A42), RRc, UNKc, UNK1c}
+  ELSE {MP4c, MP6c, CapFB(A65536), CapFB(A42), RRc, UNKc, UNK1c, MPXc, MPRc, CapFB(A1), GRc, FB2c, MP3c}
 MaxCaps == 3
-CapLists == UNION {[1..m -> CapAlphabet] : m \in 0..MaxCaps}
+CapLists(tier_) == UNION {[1..m -> CapAlphabet] : m \in 0..MaxCaps}
 
 Pack(caps, how) ==
   CASE how = "none" -> <<>>
@@ -162,8 +165,8 @@ Gen(version, as16, hold, rid, caps, how, pre) ==
 GenMsg(g) == OpenMsg(g.version, g.as16, g.hold, g.rid, g.pre \o Pack(g.caps, g.how))
 
 RidA == <<192, 0, 2, 1>>
-GenBases ==
-  {Gen(4, ASTRANS, 90, RidA, cl, how, <<>>) : cl \in CapLists, how \in {"one", "each"}}
+GenBases(tier_) ==
+  {Gen(4, ASTRANS, 90, RidA, cl, how, <<>>) : cl \in CapLists(Tier), how \in {"one", "each"}}
   \cup {Gen(4, B16(65001), 180, RidA, <<>>, "none", <<>>)}
   \cup {Gen(v, a, h, RidA, cl, "one", <<>>) :
           v \in {3, 4, 5}, a \in {B16(1), B16(65534), B16(65535), ASTRANS}, h \in {0, 1, 2, 3, 90, 65535},
@@ -192,12 +195,12 @@ GenExpect(g) ==
 Tails == {<<>>, KA}
 Rd(stream, chunk, tag) == [kind |-> "read", stream |-> stream, chunk |-> chunk, tag |-> tag]
 
-BaseInputs ==
+BaseInputs(tier_) ==
   {[kind |-> "read", stream |-> GenMsg(g) \o t, chunk |-> c, tag |-> "grammar", gen |-> g] :
-     g \in GenBases, t \in Tails, c \in {0}}
+     g \in GenBases(Tier), t \in Tails, c \in {0}}
   \cup
   {[kind |-> "read", stream |-> GenMsg(g) \o KA, chunk |-> c, tag |-> "grammar-short-reads", gen |-> g] :
-     g \in {x \in GenBases : Len(x.caps) <= 1}, c \in {1, 3}}
+     g \in {x \in GenBases(Tier) : Len(x.caps) <= 1}, c \in {1, 3}}
 
 ----------------------------------------------------------------------------
 (* mutations                                                                *)
@@ -242,7 +245,7 @@ Mutations(m) ==
                   v \in {0, 255, (m[q] + 1) % 256, (m[q] + 255) % 256} \cup (IF Tier = "quick" THEN {} ELSE {1, 2, 4, 128})}
                : q \in 1..L}
 
-MutInputs == UNION {{Rd(x.s \o t, 0, x.tag) : x \in Mutations(m), t \in Tails} : m \in MutBases}
+MutInputs(tier_) == UNION {{Rd(x.s \o t, 0, x.tag) : x \in Mutations(m), t \in Tails} : m \in MutBases}
 
 (* other message types where an OPEN is expected, and OPEN headers with odd lengths *)
 NotifBody == <<6, 2, 77, 78, 79, 80>>
@@ -277,15 +280,15 @@ RandStream(k) ==
        [] k % 5 = 3 -> Header(1, fixed \o <<n>> \o body) \o tail
        [] OTHER -> LET caps == RandCaps(z, 1 + (y % 4)) IN
                    IF y % 3 = 0 THEN Header(1, fixed \o <<Len(caps) + 2>> \o Param(2, caps)) \o tail
-                   ELSE Header(1, fixed \o <<Len(caps) + 4>> \o Param(2, SubSeq(caps, 1, 6)) \o Param(2, Drop(caps, MinN(6, Len(caps))))) \o tail
+                   ELSE Header(1, fixed \o <<Len(caps) + 4>> \o Param(2, SubSeq(caps, 1, MinN(6, Len(caps)))) \o Param(2, Drop(caps, MinN(6, Len(caps))))) \o tail
 
 NRand == IF Tier = "quick" THEN 800 ELSE 20000
-RandInputs == {Rd(RandStream(k), 0, "random") : k \in 1..NRand}
+RandInputs(tier_) == {Rd(RandStream(k), 0, "random") : k \in 1..NRand}
 
-ReaderInputs == BaseInputs \cup MutInputs \cup OtherInputs \cup RandInputs
+ReaderInputs(tier_) == BaseInputs(Tier) \cup MutInputs(Tier) \cup OtherInputs \cup RandInputs(Tier)
 
 ----------------------------------------------------------------------------
-Inputs == IF Mode = "writer" THEN WriterInputs ELSE ReaderInputs
+Inputs == IF Mode = "writer" THEN WriterInputs(Tier) ELSE ReaderInputs(Tier)
 
 Init == inp \in Inputs
 Next == FALSE /\ inp' = inp
